@@ -108,6 +108,13 @@ pub trait Campaign: Sync {
     fn seeded(&self) -> Vec<Self::Scenario> {
         vec![]
     }
+    /// explicit scenarios that may abort the process or never return (unbounded work inside one step):
+    /// each runs in a throw-away child of its own under a tight memory limit and a deadline, so that it
+    /// cannot take a shard (and the runs after it) down. A child that dies or overruns is reported as
+    /// `<prop>.abort.died` / `<prop>.abort.stalled` with that scenario.
+    fn isolated(&self) -> Vec<Self::Scenario> {
+        vec![]
+    }
     /// whether explicit scenarios are minimised too (they usually are minimal already)
     fn minimise_seeded(&self) -> bool {
         false
@@ -160,6 +167,83 @@ pub fn match_known<'a>(known: &'a [KnownFinding], prop: &str, v: &Violation, hay
             && v.invariant.starts_with(&k.invariant_prefix)
             && k.contains_all.iter().all(|s| haystack.contains(s.as_str()) || v.detail.contains(s.as_str()))
     })
+}
+
+/// child side of an isolated scenario: prints `V <json>` or `OK`
+pub fn run_isolated<C: Campaign>(c: &C, index: usize) {
+    let list = c.isolated();
+    let Some(sc) = list.get(index) else {
+        println!("OK");
+        return;
+    };
+    let o = c.execute(sc);
+    match o.violation {
+        Some(v) => println!("V {}", json!({"invariant": v.invariant, "detail": v.detail, "trace_hash": o.trace_hash})),
+        None => println!("OK"),
+    }
+}
+
+/// parent side: all isolated scenarios at once, each in its own limited child; returns violation records
+fn drive_isolated<C: Campaign>(c: &C, deadline: Duration) -> (usize, Vec<Value>) {
+    let list = c.isolated();
+    if list.is_empty() {
+        return (0, vec![]);
+    }
+    let exe = std::env::current_exe().expect("current_exe");
+    let mut children = vec![];
+    for i in 0..list.len() {
+        let cmd = format!("ulimit -v 1500000; exec '{}' isolated {} {}", exe.display(), c.prop(), i);
+        let child = Command::new("sh").arg("-c").arg(cmd).env("RUST_BACKTRACE", "0").env("RUST_LIB_BACKTRACE", "0").stdout(Stdio::piped()).stderr(Stdio::null()).spawn();
+        children.push(child.ok());
+    }
+    let t0 = Instant::now();
+    let mut out = vec![];
+    for (i, ch) in children.into_iter().enumerate() {
+        let Some(mut ch) = ch else { continue };
+        let mut why: Option<&str> = None;
+        loop {
+            match ch.try_wait() {
+                Ok(Some(st)) => {
+                    if !st.success() {
+                        why = Some("died");
+                    }
+                    break;
+                }
+                Ok(None) => {
+                    if t0.elapsed() > deadline {
+                        let _ = ch.kill();
+                        let _ = ch.wait();
+                        why = Some("stalled");
+                        break;
+                    }
+                    std::thread::sleep(Duration::from_millis(20));
+                }
+                Err(_) => {
+                    why = Some("died");
+                    break;
+                }
+            }
+        }
+        let sc_json = serde_json::to_value(&list[i]).unwrap_or(Value::Null);
+        let hay = c.haystack(&list[i]);
+        match why {
+            Some(w) => out.push(json!({"run": -1_000_000 - i as i64, "invariant": format!("{}.abort.{}", c.prop(), w), "detail": format!("the process executing this scenario {} (address-space limit 1.5 GB, deadline {} s)", w, deadline.as_secs()),
+                "tried": 0, "trace_hash": 0, "haystack": hay, "scenario": sc_json})),
+            None => {
+                let mut s = String::new();
+                use std::io::Read;
+                if let Some(mut so) = ch.stdout.take() {
+                    let _ = so.read_to_string(&mut s);
+                }
+                if let Some(rest) = s.lines().find_map(|l| l.strip_prefix("V ")) {
+                    if let Ok(v) = serde_json::from_str::<Value>(rest) {
+                        out.push(json!({"run": -1_000_000 - i as i64, "invariant": v["invariant"], "detail": v["detail"], "tried": 0, "trace_hash": v["trace_hash"], "haystack": hay, "scenario": sc_json}));
+                    }
+                }
+            }
+        }
+    }
+    (list.len(), out)
 }
 
 /// Greedy minimisation: keep taking the first shrink candidate that still violates the same invariant.
@@ -504,7 +588,9 @@ pub fn check<C: Campaign>(c: &C, a: &CheckArgs) -> i32 {
     let prop = c.prop();
     let total = a.runs_override.unwrap_or(c.runs(a.tier));
     println!("CHECK property={} tier={} seed={} runs={} shards={}", prop, a.tier.name(), a.seed, total, a.shards);
-    let m = drive(prop, a.tier, a.seed, a.shards, total, false, 90);
+    let mut m = drive(prop, a.tier, a.seed, a.shards, total, false, 90);
+    let (isolated_run, isolated_violations) = drive_isolated(c, Duration::from_secs(8));
+    m.violations.extend(isolated_violations);
     let wall = t0.elapsed().as_secs_f64();
     let known = load_known_findings(&a.verif_root);
     let mut exit = 0;
@@ -613,6 +699,7 @@ pub fn check<C: Campaign>(c: &C, a: &CheckArgs) -> i32 {
             "probes_hit_in_runs": m.probes,
             "known_findings_reproduced": known_hit.iter().map(|(k, v)| (k.clone(), v.1)).collect::<BTreeMap<_, _>>(),
             "foreign_panics_seen": m.foreign_panics.len(),
+            "isolated_scenarios_run_in_their_own_process": isolated_run,
             "components": c.components(),
             "simulated_time": "logical only: the event sequence number (runtime steps, store operations, compactions, builds are counted under counters); garnish-core has no clock",
         }
